@@ -13,7 +13,8 @@ op = 3 * action + target         target in 0..2 (Deferred d0, d1, d2)
 symbolic op is coded 3 * (index into that tuple) + target, i.e. 12/13/14 = addCallbacks on d0/d1/d2.
 Behaviour of f_i = bs[2i], of g_i = bs[2i+1]:
   0 return an int computed from the argument   1 raise Boom(i)   2 return Failure(Boom(100 + i))
-  3/4/5 return d0/d1/d2
+  3/4/5 return d0/d1/d2   6 raise Unwind(300 + i), a BaseException that is not an Exception (like
+  asyncio.CancelledError / GeneratorExit): it must be turned into a Failure exactly like Boom
 Behaviours are decoded only when the callback actually runs, so callbacks that never run do not
 multiply paths.
 """
@@ -34,9 +35,9 @@ ENCODED = ["twisted.internet.defer:Deferred._runCallbacks", "twisted.internet.de
            "twisted.internet.defer:Deferred._continuation"]
 BOUNDS = {"quick": {"n": 3, "m": 4, "k": 2, "pz": 2}, "thorough": {"n": 4, "m": 5, "k": 3, "pz": 2}}
 B = {}
-BOUNDS_TEXT = ("3 Deferreds; program: every program of <= n ops over the full alphabet (24 op codes x 6 callback "
+BOUNDS_TEXT = ("3 Deferreds; program: every program of <= n ops over the full alphabet (24 op codes x 7 callback "
                "behaviours per side); program_cbs: every program of <= m ops over {callback, errback, pause, "
-               "unpause, addCallbacks(f, g)} (15 op codes, 6 behaviours per side); scenario: 7 fixed 2-4 op "
+               "unpause, addCallbacks(f, g)} (15 op codes, 7 behaviours per side); scenario: 7 fixed 2-4 op "
                "prefixes (waiting on unfired / paused / nested / shared Deferred, failed waiter, paused fired "
                "Deferred with pending pairs) followed by every sequence of k such ops; <= pz pause() calls; fired "
                "values v+i for every int v; each program is followed by a fixed draining epilogue (unpause all, "
@@ -63,6 +64,10 @@ ND = 3
 
 class _Boom(Exception):
     pass
+
+
+class _Unwind(BaseException):
+    """raised by behaviour 6: not an Exception (and not one of CrossHair's control exceptions)"""
 
 
 class _Invalid(Exception):
@@ -156,6 +161,9 @@ class _Ref:
                 self.res[i] = ("F", fn[0])
             elif b == 2:
                 self.res[i] = ("F", 100 + fn[0])
+            elif b == 6:
+                # whatever a callback raises, Exception or not, becomes the Failure the next errback gets
+                self.res[i] = ("F", 300 + fn[0])
             else:
                 j = b - 3
                 if j == i:
@@ -193,7 +201,7 @@ class _World:
         key = (cbid, side)
         if key not in self.behc:
             # decoded when the callback runs for the first time (shared by model and real side)
-            self.behc[key] = 0 if self.draining else _c(self.bs[2 * cbid + side], 0, 6)
+            self.behc[key] = 0 if self.draining else _c(self.bs[2 * cbid + side], 0, 7)
         return self.behc[key]
 
     def abs(self, x):
@@ -219,6 +227,8 @@ class _World:
                 raise _Boom(cbid)
             if b == 2:
                 return Failure(_Boom(100 + cbid))
+            if b == 6:
+                raise _Unwind(300 + cbid)
             return self.ds[b - 3]
         return f
 
@@ -282,22 +292,25 @@ class _World:
                 r.add(t, ok, (i, 1))
         except _Invalid:
             return None
-        if a == 0:
-            d.callback(self.v + i)
-        elif a == 1:
-            d.errback(_Boom(200 + i))
-        elif a == 2:
-            d.pause()
-        elif a == 3:
-            d.unpause()
-        elif a == 4:
-            d.addCallback(self.fn(i, 0))
-        elif a == 5:
-            d.addErrback(self.fn(i, 0))
-        elif a == 6:
-            d.addBoth(self.fn(i, 0))
-        else:
-            d.addCallbacks(self.fn(i, 0), self.fn(i, 1))
+        try:
+            if a == 0:
+                d.callback(self.v + i)
+            elif a == 1:
+                d.errback(_Boom(200 + i))
+            elif a == 2:
+                d.pause()
+            elif a == 3:
+                d.unpause()
+            elif a == 4:
+                d.addCallback(self.fn(i, 0))
+            elif a == 5:
+                d.addErrback(self.fn(i, 0))
+            elif a == 6:
+                d.addBoth(self.fn(i, 0))
+            else:
+                d.addCallbacks(self.fn(i, 0), self.fn(i, 1))
+        except (_Boom, _Unwind):
+            return False            # nothing a callback raises may escape from the Deferred API
         return self.same()
 
     def drain(self, i):
@@ -431,7 +444,9 @@ VECTORS = {
                 # errback, addErrback(returns value), addCallback
                 (-3, (3, 15, 12, 0, 0, 0), _Z),
                 # addBoth raising, then addErrback on the fired Deferred
-                (0, (18, 0, 15, 0, 0, 0), (1,) + _Z[1:])],
+                (0, (18, 0, 15, 0, 0, 0), (1,) + _Z[1:]),
+                # addCallback raising a non-Exception BaseException, addErrback sees it, then fire
+                (2, (12, 15, 0, 0, 0, 0), (6,) + _Z[1:])],
     # pause d0, fire d0, d1.addCallbacks(f->d0), fire d1: waits for the paused Deferred, no result stealing
     "program_cbs": [(7, (6, 0, 13, 1, 0, 0), (0, 0, 0, 0, 3) + _Z[5:]),
                     # already fired inner Deferred: result is taken at once
